@@ -242,7 +242,9 @@ MC_PLAN = {
     "C07": [("MC_Core", "MC_Core.cfg", "MC_CoreFull.cfg", "+1w", "final")],
     "C01": [("MC_SubSlot", None, "MC_SubSlot.cfg", "+1w", "trace")],
     "C03": [("MC_SubSlot", None, "MC_SubSlot.cfg", "+1w", "trace")],
-    "C06": [("MC_SubSlot", None, "MC_SubSlot.cfg", "+1w", "trace")],
+    "C06": [("MC_SubSlot", None, "MC_SubSlot.cfg", "+1w", "trace"), ("MC_Alap", None, "MC_Alap.cfg", "+1w", "trace")],
+    "C08": [("MC_Alap", None, "MC_Alap.cfg", "+1w", "trace"), ("MC_Core", None, "MC_Core.cfg", "+1w", "trace")],
+    "C04": [("MC_Alap", None, "MC_AlapFull.cfg", "+1w", "trace")],
 }
 
 
